@@ -16,11 +16,11 @@ import multiprocessing as mp
 DRIVERS = ("c15",)
 TRANSLATORS = ("effects_ir",)
 MODEL_TARGETS = ["Model/Effects.vo", "Gen/EffectsIR.vo"]
-TARGETS = ["Proofs/EffectsFacts.vo", "Proofs/EffectsKoala.vo"]
+TARGETS = ["Proofs/EffectsFacts.vo", "Proofs/EffectsKoala.vo", "Proofs/EffectsMono.vo"]
 LEVEL = "proof"
 TRUST = [
     "translate/effects_ir.py: Python-ast -> effect IR. Trusted: the View/Fresh/Box/Write classification table of numpy / matplotlib / pysat / builtin calls and syntax forms (EXT, EXT_WRITES, M_* in that file), the basic-vs-advanced indexing classification, and that Python control flow (exceptions, return, break, continue) is covered by the IR's prefix-closed Seq. Fails closed on any unknown callee or construct. Validated, not proved, by the dynamic fingerprint run (K).",
-    "calls of run-time callables received as arguments (heuristic, Hk, distance_func, adjacency, function) are assumed effect-free; koala's own closures that flow into such positions are checked separately (escaping_functions, every formal and captured variable tainted)",
+    "calls of run-time callables received as arguments (heuristic, Hk, distance_func, adjacency, function, idx_mapper) are IR statements CallDyn: the store semantics lets the callee be ANY koala function / closure that is used as a first-class value anywhere (on arbitrary argument values; covered by analysis_sound through the assume/guarantee check dyn_ok, C15_koala_dyn_targets_verified) or a FOREIGN callable, which is assumed effect-free (may allocate, returns anything). Trusted: that the translator's set of first-class koala functions (w.escaping) is complete",
     "output sinks (the `ax` parameter, plt.gca()) are not 'lattice or arrays passed in': excluded from the taint mask; cached_property population (self._x = ...) and the write-once `Lattice.unit_cell` class attribute are exempt exactly as the property exempts lazily computed attributes",
     "store semantics of Model/Effects.v (abstract locations, own/reach sets) as the meaning of 'aliasing' for Python objects",
 ]
@@ -568,6 +568,55 @@ def analysis_verdicts(ctx):
     return info, verdict
 
 
+def coq_crosscheck(ctx, info):
+    """Extraction cross-check (DESIGN 1.3): the extracted analysis' answers are re-derived INSIDE Coq (vm_compute on the
+    same Gen/EffectsIR.v) and must coincide: (a) the complete `all` answer (every public / extra / escaping entry, in
+    order), (b) `mask f bits` for a random sample of functions x random taint masks (accepting AND rejecting answers:
+    private helpers that write their formals are in the sample), (c) `written f` (which single formals may be written).
+    A wrong extraction, a miscompiled model.ml or a driver / parsing bug makes coqc fail -> RuntimeError."""
+    import xcheck as X
+    exe = ctx.exe["c15"]
+    fns = info["functions"]
+    rng = np.random.default_rng([ctx.seed, 15, 99])
+    nm, nw = (40, 20) if ctx.tier == "quick" else (240, 60)     # ~0.4 s per goal (each re-verifies the run-time-callable candidates)
+    writers = [f for f in fns if f["has_write"]]
+    body = []
+    # (a) every entry, in the order of the three generated lists
+    o = run_driver(exe, ["all"])[0]
+    for kind, lname in (("public", "public_functions"), ("extra", "public_extra"), ("escaping", "escaping_functions")):
+        ans = [(int(k.split("_")[2]), v[0] == "1") for k, v in o.items() if k.split("_")[1] == kind]
+        body.append(X.goal(f"map (fun e => (fst e, no_arg_write_entry prog e)) {lname}", X.lst(X.pair(X.nat, X.boolean), ans)))
+    # (b) random masks; half of the sample on functions that contain a Write statement
+    qs = []
+    for j in range(nm):
+        f = (writers if (j % 2 and writers) else fns)[int(rng.integers(0, len(writers if (j % 2 and writers) else fns)))]
+        np_ = len(f["params"])
+        c = int(rng.integers(0, 4))
+        mask = [True] * np_ if c == 0 else [False] * np_ if c == 1 else [bool(b) for b in rng.integers(0, 2, size=np_)]
+        if c == 3 and np_:
+            mask = [i == int(rng.integers(0, np_)) for i in range(np_)]
+        qs.append((f["index"], mask))
+    outs = run_driver(exe, ["mask %d %s" % (f, " ".join("1" if b else "0" for b in m)) for f, m in qs])
+    n_rej = 0
+    for (f, m), a in zip(qs, outs):
+        b = a["verdict"][0] == "1"
+        n_rej += not b
+        body.append(X.goal(f"no_arg_write_mask prog {X.nat(f)} {X.lst(X.boolean, m)}", X.boolean(b)))
+    # (c) written_params
+    ws = [fns[int(i)]["index"] for i in rng.choice(len(fns), size=min(nw, len(fns)), replace=False)]
+    outs = run_driver(exe, ["written %d" % f for f in ws])
+    n_w = 0
+    for f, a in zip(ws, outs):
+        w = [int(t) for t in a["written"]]
+        n_w += bool(w)
+        body.append(X.goal(f"written_params prog {X.nat(f)}", X.natlist(w) if w else "(@nil nat)"))
+    ctx.res.extra["extraction_crosscheck_goals_vm_compute"] = X.compile_goals("c15", "Model.Effects Gen.EffectsIR", body, "c15",
+                                                                             stdlib="List Bool Arith ZArith")
+    ctx.res.extra["extraction_crosscheck_mask_answers_rejecting"] = n_rej
+    ctx.res.extra["extraction_crosscheck_written_answers_nonempty"] = n_w
+    ctx.res.extra["extraction_crosscheck_wall_s"] = X.LAST_WALL
+
+
 def sweep(ctx, n_seq, seed, only=None, label="run"):
     res = ctx.res
     jobs = [(seed, i, only) for i in range(n_seq)]
@@ -667,6 +716,7 @@ def run(ctx):
                 "every step re-evaluated on fresh copies.  non-trivial = sequence of length >= 2")
     info, verdict = analysis_verdicts(ctx)
     diagnose(ctx, info, verdict)
+    coq_crosscheck(ctx, info)
     n = 600 if ctx.tier == "quick" else 5000
     calls, raised, alias, lens, mutated = sweep(ctx, n, ctx.seed)
     report(ctx, calls, raised, alias, lens, mutated, info, verdict, "run")
